@@ -238,6 +238,19 @@ def gen_rmm(tier, rnd, cases):
         qs = all_queries(names[:4] + ["zz"], qd)
         cases.append(mcase(rnd.choice([10, 10, 1, 2, 3]), ops, qs))
         dist["general"] += 1
+    # a domain function installed, one name holding links BOTH under a pattern domain and under a concrete domain the pattern
+    # covers: a question about the concrete domain is answered from every graph the function selects, not only from the
+    # concrete domain's own graph once the name is known there
+    dist["pattern_and_concrete_domain"] = 0
+    for pd in ("*", "d*"):
+        for conc in ("d1", "d2"):
+            for rfn in (None, "km"):
+                base = [("A", "alice", "book_group", pd), ("A", "alice", "pen_group", conc), ("A", "bob", "alice", conc), ("A", "book_group", "grp", pd)]
+                for perm in itertools.permutations(base, 3):
+                    for tail in ([], [("D", "alice", "pen_group", conc)], [("D", "alice", "book_group", pd)]):
+                        ops = [("F", rfn, "km")] + list(perm) + tail
+                        cases.append(mcase(10, ops, all_queries(["alice", "bob", "book_group", "pen_group", "grp"], [conc, pd])))
+                        dist["pattern_and_concrete_domain"] += 1
     return dist
 
 
